@@ -50,6 +50,11 @@ meta={"property":chk,"origin":"independent sub-agent given only the property tex
  "demo_package_dir":d,
  "check_command":"git -C /repo apply /verif/seeded/%s/patch.diff; ./check %s; git -C /repo checkout -- .   (the script used VERIF_REPO=<scratch copy>)"%(name,chk),
  "check_exit_code":int(crc),"detected":int(crc)==1,"caught_by":caught}
+try:
+    old=json.load(open('/verif/seeded/%s/meta.json'%name))
+    for k,v in old.items():
+        if k not in meta: meta[k]=v   # notes added by hand (missed_at_first, obsolete_*) survive a re-verification
+except Exception: pass
 json.dump(meta,open('/verif/seeded/%s/meta.json'%name,'w'),indent=1)
 print("filed seeded/%s detected=%s"%(name,int(crc)==1))
 PY
